@@ -49,6 +49,13 @@ theorem C19.walks_pinned : Gen.amountsWalks = Pinned.amountsWalks := rfl
     finalize's two-commodity branch) and the key types of their maps are the pinned ones. -/
 theorem C19.fns_pinned : Gen.orderSourceFns = Pinned.orderSourceFns := rfl
 
+/-- The comparators of the pointer-keyed ordered containers are the classified ones … -/
+theorem C19.comparators_pinned : Gen.comparators = Pinned.comparators := rfl
+
+/-- … and none of them falls back to comparing the pointers: a `std::map<T*, …, C>` whose `C` ends in
+    `lhs < rhs` lists equal-named entries in heap-address order. -/
+theorem C19.comparators_name_only : ∀ e ∈ Gen.comparators, e.2.1 = "name-only" := by decide
+
 /-! ### order-free consumers -/
 
 /-- Generic form: a consumer that sorts the enumeration of a finite map by ANY
